@@ -225,14 +225,26 @@ impl<'a> World<'a> {
         }
         None
     }
-    /// one observed operation for the model: the listing is left out when it equals the previous one
+    /// one observed operation for the model, with the change of the listing across it
     fn push_op(&mut self, run: &mut Run, op: String, after: &Listing) {
-        if *after == self.last {
-            run.coq_ops.push(format!("({op}, None)"));
-        } else {
-            run.coq_ops.push(format!("({op}, Some {})", coq_fs_cp(after)));
-            self.last = after.clone();
+        let mut parts = vec![];
+        // disappeared entries first (children before parents do not matter: every entry is listed on its own)
+        for (c, _) in self.last.iter() {
+            if !after.contains_key(c) {
+                parts.push(format!("({}, None)", coq_list(c, |x| coq_name(x))));
+            }
         }
+        for (c, n) in after.iter() {
+            if self.last.get(c) != Some(n) {
+                let ns = match n {
+                    Node::Dir => "Dir".to_string(),
+                    Node::File(b) => format!("File {}", ws_common::coq_bytes(b)),
+                };
+                parts.push(format!("({}, Some ({}))", coq_list(c, |x| coq_name(x)), ns));
+            }
+        }
+        run.coq_ops.push(format!("({op}, [{}])", parts.join("; ")));
+        self.last = after.clone();
     }
 
     fn exec(&mut self, run: &mut Run, op: &Value) {
@@ -614,7 +626,7 @@ fn put_siblings(l: &mut Listing, target: &str, which: &mut dyn FnMut(usize) -> b
             let p = format!("{dir}{sname}");
             let c: Comps = p.split('/').map(|s| s.as_bytes().to_vec()).collect();
             if !l.contains_key(&c) {
-                put_file(l, &p, &format!("sibling {p}\n"));
+                put_file(l, &p, &format!("s{i}\n"));
             }
         }
     }
